@@ -154,6 +154,11 @@ func (p *idp) serve(w http.ResponseWriter, r *http.Request) {
 			doc["code_challenge_methods_supported"] = []string{"plain"}
 		case "noMethods":
 			delete(doc, "code_challenge_methods_supported")
+		case "plainFirst":
+			doc["code_challenge_methods_supported"] = []string{"plain", "S256"}
+		case "scopesPartial":
+			// a server need not advertise every scope it supports (OpenID Connect Discovery 3): "openid" itself may be missing
+			doc["scopes_supported"] = []string{"email", "offline_access"}
 		}
 		w.Header().Set("Content-Type", "application/json")
 		_ = json.NewEncoder(w).Encode(doc)
